@@ -514,7 +514,7 @@ func (w *World) idpUser(st *Step) IdPUser {
 	if uid == "" {
 		uid = fmt.Sprintf("idp-%d", st.A)
 	}
-	return IdPUser{Provider: st.str("provider"), UID: uid, Email: uid + "@idp.example"}
+	return IdPUser{Provider: st.str("provider"), UID: uid, Email: uid + "." + st.str("provider") + "@idp.example"}
 }
 
 // ratePassword rates a password against the hash stored for the account the
